@@ -4,6 +4,7 @@
     in the headers fabio manages: request-id header, the [host=] rewrite of
     [r.Host] BEFORE [addHeaders], and the choice between the websocket handler
     ([Upgrade] is exactly "websocket" or "Websocket") and [httputil.ReverseProxy].
+    The model follows the repair afbb806 (addHeaders and scheme recognise both spellings).
 
     Go's [http.Header] is a map from canonical keys to value slices; here an
     association list [hmap] in which [hfind] sees the first binding only and
@@ -124,8 +125,12 @@ Definition i32toa (z : Z) : str :=
   let m := int32_wrap z in
   if (m <? 0)%Z then 45 :: itoa (Z.to_N (- m)) else itoa (Z.to_N m).
 
-(* scheme(r) *)
-Definition is_ws (h : hmap) : bool := beq (hget h K_UPGRADE) (bs "websocket").
+(* scheme(r) / addHeaders: [ws := upgrade == "websocket" || upgrade == "Websocket"], the same
+   two spellings ServeHTTP sends to the websocket handler (since the repair afbb806; the
+   behaviour before it, lower-case only, is kept below as the [_unrepaired] definitions,
+   which only the refutation theorem of the repaired finding F-C08-2 uses) *)
+Definition is_ws (h : hmap) : bool :=
+  let up := hget h K_UPGRADE in beq up (bs "websocket") || beq up (bs "Websocket").
 
 Definition conn_scheme (h : hmap) (tls : bool) : str :=
   if is_ws h then (if tls then bs "wss" else bs "ws") else (if tls then bs "https" else bs "http").
@@ -262,6 +267,60 @@ Definition serve (cfg : config) (t : target) (uuid : str) (r : request) : outcom
   let r' := {| r_peer := r_peer r; r_host := rewritten_host t (r_host r); r_tls := r_tls r;
                r_proto := r_proto r; r_hdr := h0 |} in
   do h <- add_headers cfg (t_strip t) r';
+  let sts := add_response_headers cfg (is_tls r) in
+  match r_peer r with
+  | None => Err 0
+  | Some peer => Ok (if takes_ws_path h then wire h else rp_out peer h, sts)
+  end.
+
+(* ---------------- before the repair afbb806 (F-C08-2, fixed) ----------------
+   addHeaders and scheme recognised only the lower-case spelling while ServeHTTP sent
+   "Websocket" to the websocket handler as well.  Used by the refutation theorem only. *)
+Definition is_ws_unrepaired (h : hmap) : bool := beq (hget h K_UPGRADE) (bs "websocket").
+
+Definition conn_scheme_unrepaired (h : hmap) (tls : bool) : str :=
+  if is_ws_unrepaired h then (if tls then bs "wss" else bs "ws") else (if tls then bs "https" else bs "http").
+
+Definition scheme_unrepaired (h : hmap) (tls : bool) : str :=
+  let xfp := hget h K_XFP in
+  let fwd := hget h K_FWD in
+  if negb (sempty xfp) && sempty fwd then xfp
+  else if negb (sempty fwd) && sempty xfp then
+    match index fwd (bs "proto=") with
+    | None => conn_scheme_unrepaired h tls
+    | Some i =>
+        let p1 := skipn (i + 6) fwd in
+        match index_byte p1 59 with Some n => firstn n p1 | None => p1 end
+    end
+  else conn_scheme_unrepaired h tls.
+
+Definition add_headers_unrepaired (cfg : config) (strip : str) (r : request) : outcome hmap :=
+  match r_peer r with
+  | None => Err 0
+  | Some peer =>
+      let tls := is_tls r in
+      let cih := c_clientip cfg in
+      let h1 := cset (negb (sempty cih) && negb (beq cih K_XFF) && negb (beq cih K_XRI))
+                     (r_hdr r) (canon_key cih) peer in
+      let h2 := cset (sempty (hget h1 K_XRI)) h1 K_XRI peer in
+      let h3 := if is_ws_unrepaired h2 then xff_append peer h2 else h2 in
+      let proto := scheme_unrepaired h3 tls in
+      let h4 := cset (sempty (hget h3 K_XFP)) h3 K_XFP (xfp_of_scheme proto) in
+      let h5 := cset (sempty (hget h4 K_XFPORT)) h4 K_XFPORT (local_port (r_host r) tls) in
+      let h6 := cset (sempty (hget h5 K_XFH) && negb (sempty (r_host r))) h5 K_XFH (r_host r) in
+      let h7 := cset (negb (sempty strip)) h6 K_XFPREFIX strip in
+      let h8 := hset h7 K_FWD (forwarded_value cfg r peer proto h7) in
+      let th := c_tlsheader cfg in
+      Ok (if sempty th then h8
+          else if tls then hset h8 (canon_key th) (c_tlsvalue cfg)
+          else hdel h8 (canon_key th))
+  end.
+
+Definition serve_unrepaired (cfg : config) (t : target) (uuid : str) (r : request) : outcome (hmap * option str) :=
+  let h0 := cset (negb (sempty (c_reqid cfg))) (r_hdr r) (canon_key (c_reqid cfg)) uuid in
+  let r' := {| r_peer := r_peer r; r_host := rewritten_host t (r_host r); r_tls := r_tls r;
+               r_proto := r_proto r; r_hdr := h0 |} in
+  do h <- add_headers_unrepaired cfg (t_strip t) r';
   let sts := add_response_headers cfg (is_tls r) in
   match r_peer r with
   | None => Err 0
